@@ -8,7 +8,17 @@ claim("C16", "DESIGN.md §2 C16",
       "static lockset/race analysis over go/ssa + VTA call graph; lock-balance dataflow; lock-order cycle check",
       COMMON_NOTE + " Ownership assumption: one instance of each component per store, reached through fields never written after construction.")
 
+claim("C01", "DESIGN.md §2 C01",
+      "Structural necessary conditions of map-equivalence decided on all paths: every outcome of Store.Get/Has/GetSize/Remove/Put that reports or acts on an existing key is dominated by a successful full-key comparison (the index stores prefixes only); Put's store-nothing success exit requires the key match; no primary Get branches on the cached value bytes (nil/empty values are values); ErrKeyExists precedes every write; index cache lookup order; the location predicted by a primary's Put and the bytes its flushBlock writes/its Get reads agree as affine expressions (rollover test, advance, prefix, reader length). Decides those clauses, not the behaviour: prefix trimming, ordering inside record lists, iteration contents and division-based position arithmetic are not covered.",
+      "CFG dominance / evidence-edge path rules with boolean-flag correlation, value provenance, affine sibling comparison over go/ssa",
+      COMMON_NOTE)
+
+claim("C02", "DESIGN.md §2 C02",
+      "Structural necessary conditions of clean-Close-then-reopen: Store.Close reaches the Close of index, primary, file cache and freelist on every path behind the open guard (cleared under stateLk); each component flushes before closing its file; the bucket snapshot is written temp+rename only after successful flush and close, trusted only when its size matches, removed once opened; writer, rescan and GC agree on the bucket position convention (affine); every sequential log scanner and point reader branches on the deleted bit before using a size word; recovery scans start at the header's FirstFile; the primary resumes at the end of its last file. Does not decide that rescan order reproduces the live table for every history.",
+      "must-call / must-precede path rules on the SSA CFG, success-edge dominance through captured error cells, affine comparison, value provenance",
+      COMMON_NOTE)
+
 PENDING = "check for this property is still being built in this session; see DESIGN.md for the planned structural rules"
-for p in ["C01","C02","C03","C04","C05","C06","C07","C08","C09","C10","C12","C13","C14","C15","C17"]:
+for p in ["C03","C04","C05","C06","C07","C08","C09","C10","C12","C13","C14","C15","C17"]:
     na(p, PENDING)
 na("C11", "progress, reclaimed byte counts, 'bounded number of cycles' and fixed points are quantities of executions; no refactoring-stable structural necessary condition exists beyond safety rules already claimed under C04/C07 (DESIGN.md §2 C11)")
